@@ -17,6 +17,7 @@ const maxInlineDepth = 6
 type retRec struct {
 	st   *State
 	vals []Val
+	pos  token.Pos
 }
 
 type Frame struct {
@@ -232,6 +233,9 @@ func (vc *VC) execFunc(fn *ssa.Function, args []Val, free []Val, st *State, dept
 			}
 		}
 		vc.execBlock(fr, b, cur, in)
+	}
+	if top {
+		vc.topRets = fr.rets
 	}
 	// merge returns
 	if len(fr.rets) == 0 {
@@ -819,13 +823,23 @@ func (vc *VC) execBlock(fr *Frame, b *ssa.BasicBlock, st *State, in map[*ssa.Bas
 			for _, r := range ins.Results {
 				vals = append(vals, vc.value(fr, r))
 			}
-			fr.rets = append(fr.rets, retRec{st, vals})
+			fr.rets = append(fr.rets, retRec{st.clone(), vals, instrPos(fn, ins)})
 			return
 		case *ssa.Panic:
 			vc.oblige(st, "nopanic", "nopanic.explicit:"+vc.srcText(fn, ins), "explicit panic reachable", vc.pos(instrPos(fn, ins)), "false")
 			return
 		default:
 			vc.execInstr(fr, ins, st)
+			if v, ok := ins.(ssa.Value); ok {
+				if r, has := fr.regs[v]; has && r.K == KBad {
+					if _, isPtr := v.Type().Underlying().(*types.Pointer); !isPtr {
+						vc.unsupported("%s: %s (value treated as arbitrary)", funcKey(fn), r.Why)
+						sym, _ := vc.symbolic(v.Type(), "abs")
+						vc.assume(st, vc.wf(st, sym))
+						fr.regs[v] = sym
+					}
+				}
+			}
 		}
 	}
 }
@@ -907,6 +921,7 @@ func (vc *VC) execInstr(fr *Frame, ins ssa.Instruction, st *State) {
 			v := vc.load(st, x.L)
 			if x.L.Kind != locCell {
 				vc.assume(st, vc.wf(st, v))
+				vc.assumeTypeInv(st, x.L)
 				v.Own = false
 			} else if v.K == KSlice && v.Own && len(x.L.Path) == 0 {
 				if consumedByAppend(ins) {
@@ -998,8 +1013,8 @@ func (vc *VC) execInstr(fr *Frame, ins ssa.Instruction, st *State) {
 			fr.regs[ins] = unflatten(ins.Type(), []string{sel(x.S, idx)})
 		case KScalar:
 			vc.declStr()
-			vc.oblige(st, "nopanic", "nopanic.index:"+vc.srcText(fn, ins), "index out of range", pos, and(sx("bvsle", i64(0), idx), sx("bvslt", idx, sx("str.len", x.S))))
-			fr.regs[ins] = Val{K: KScalar, T: ins.Type(), S: sx("str.at", x.S, idx)}
+			vc.oblige(st, "nopanic", "nopanic.index:"+vc.srcText(fn, ins), "index out of range", pos, and(sx("bvsle", i64(0), idx), sx("bvslt", idx, sx("s.len", x.S))))
+			fr.regs[ins] = Val{K: KScalar, T: ins.Type(), S: sx("s.at", x.S, idx)}
 		default:
 			fr.regs[ins] = bad(ins.Type(), "index on "+x.String())
 		}
@@ -1073,8 +1088,8 @@ func (vc *VC) execInstr(fr *Frame, ins ssa.Instruction, st *State) {
 		// string index
 		idx := toIdx(k)
 		vc.declStr()
-		vc.oblige(st, "nopanic", "nopanic.index:"+vc.srcText(fn, ins), "index out of range", pos, and(sx("bvsle", i64(0), idx), sx("bvslt", idx, sx("str.len", x.S))))
-		fr.regs[ins] = Val{K: KScalar, T: ins.Type(), S: sx("str.at", x.S, idx)}
+		vc.oblige(st, "nopanic", "nopanic.index:"+vc.srcText(fn, ins), "index out of range", pos, and(sx("bvsle", i64(0), idx), sx("bvslt", idx, sx("s.len", x.S))))
+		fr.regs[ins] = Val{K: KScalar, T: ins.Type(), S: sx("s.at", x.S, idx)}
 	case *ssa.MapUpdate:
 		m := vc.value(fr, ins.Map)
 		vc.oblige(st, "nopanic", "nopanic.nilmap:"+vc.srcText(fn, ins), "assignment to entry in nil map", pos, not(eq(m.S, "0")))
@@ -1245,4 +1260,25 @@ func allocSlicedOnce(a *ssa.Alloc, sl *ssa.Slice) bool {
 		}
 	}
 	return true
+}
+
+// assumeTypeInv: trusted representation invariants of library types, assumed whenever a
+// field of such an object is read.
+func (vc *VC) assumeTypeInv(st *State, l *Loc) {
+	if l.Kind != locObj || len(l.Path) == 0 {
+		return
+	}
+	switch typeKey(l.Base) {
+	case "bytes.Buffer":
+		bi, ok1 := fieldIndex(l.Base, "buf")
+		oi, ok2 := fieldIndex(l.Base, "off")
+		if !ok1 || !ok2 {
+			return
+		}
+		root := &Loc{Kind: locObj, Ref: l.Ref, Base: l.Base}
+		buf := vc.load(st, root.extend(pathElem{Field: bi}))
+		off := vc.load(st, root.extend(pathElem{Field: oi}))
+		vc.assume(st, and(vc.wf(st, buf), sx("bvsle", i64(0), off.S), sx("bvsle", off.S, buf.Sl[2])))
+		vc.eng.usedTrusted["type invariant bytes.Buffer: 0 <= off <= len(buf)"] = true
+	}
 }
